@@ -940,7 +940,7 @@ def build_fncall(
         for binding, doc in kwargdocs
     ]
 
-    if not (argdocs or kwargdocs):
+    if not (argdocs or kwargdocs or trailing_comment):
         return concat([
             fndoc,
             LPAREN,
@@ -1240,12 +1240,19 @@ def pretty_bracketable_iterable(value, ctx, trailing_comment=None):
 
     if not value:
         if isinstance(value, (list, tuple)):
-            if is_native_type:
+            if is_native_type and not trailing_comment:
                 return concat([left, right])
-            return pretty_call_alt(ctx, constructor)
+            if not trailing_comment:
+                return pretty_call_alt(ctx, constructor)
         else:
             # E.g. set() or SubclassOfSet()
-            return pretty_call_alt(ctx, constructor)
+            if not trailing_comment:
+                return pretty_call_alt(ctx, constructor)
+            return build_fncall(
+                ctx,
+                general_identifier(constructor),
+                trailing_comment=trailing_comment
+            )
 
     if ctx.depth_left == 0:
         if isinstance(value, (list, tuple)):
